@@ -866,6 +866,15 @@ impl Arena {
       return self.alloc_bytes_in(extra);
     }
 
+    // offsets and sizes are u32: a type whose padded size does not fit can never be served
+    // (and must not be truncated by the casts below).
+    if Self::pad::<T>() > u32::MAX as usize {
+      return Err(Error::InsufficientSpace {
+        requested: u32::MAX,
+        available: self.remaining() as u32,
+      });
+    }
+
     let header = self.header_mut();
     let allocated = header.allocated;
     let aligned_offset = align_offset::<T>(allocated);
@@ -985,6 +994,15 @@ impl Arena {
     let t_size = mem::size_of::<T>();
     if t_size == 0 {
       return Ok(None);
+    }
+
+    // offsets and sizes are u32: a type whose padded size does not fit can never be served
+    // (and must not be truncated by the casts below).
+    if Self::pad::<T>() > u32::MAX as usize {
+      return Err(Error::InsufficientSpace {
+        requested: u32::MAX,
+        available: self.remaining() as u32,
+      });
     }
 
     let header = self.header_mut();
